@@ -115,6 +115,15 @@ func (wd *World) runEpilogue() {
 	}
 	wd.root.releaseStalls()
 	simrt.WaitQuiescent()
+	{
+		// end of the program: every gate is open, everything has settled in whatever
+		// lifecycle state the program left the worker (Arg 88; Phase 1, so the clauses
+		// about mid-program quiescence do not take it for one of theirs)
+		c := r.begin(opSettle, -1, -1)
+		c.Arg = 88
+		c.Val2 = wd.root.stalledNow
+		r.end(c)
+	}
 	w := wd.w
 	for i := 0; i < 4; i++ {
 		st := w.Status()
